@@ -102,6 +102,9 @@ def judge(family, case, rec):
             if rs % 4 == 0 and not bad_tuple:
                 sz = tuple(np.int64(v) for v in size) if isinstance(size, tuple) else np.int64(size)
                 res = gens.intervention_targets(np.int64(p), np.int64(K), sz, replace=replace, random_state=rs)
+            elif rs % 4 == 1:      # every argument positionally, in the documented order
+                res = gens.intervention_targets(p, K, size, replace, rs)
+                rec.count("call-form:positional")
             else:
                 res = gens.intervention_targets(p, K, size, replace=replace, random_state=rs)
             raised = None
